@@ -132,6 +132,14 @@ def jInflow (fl : Flow) (j r : Nat) : Rat :=
   if net.jgroup j then sumTo net.nL (fun l => if net.dst l = j then fl l r else 0)
   else if r = 0 then sumTo net.nL (fun l => if net.dst l = j then recorded net fl l else 0) else 0
 
+/-- number of rows on which inflow into `j` can be non-zero: the largest row count among its in-links -/
+def jRows (j : Nat) : Nat :=
+  (List.range net.nL).foldl (fun m l => if net.dst l = j then max m (net.lrows l) else m) 0
+
+/-- `not np.any(net_inflow)`: the inflow into junction `j` is zero in every row -/
+def inflowZero (fl : Flow) (j : Nat) : Bool :=
+  (List.range (jRows net j)).all (fun r => jInflow net fl j r == 0)
+
 /-- normalised fraction used by a residual junction -/
 def resFrac (pv : Nat → Rat) (j l : Nat) : Rat :=
   if pTot net pv j > 1 then pOf net pv l / pTot net pv j else pOf net pv l
@@ -139,7 +147,9 @@ def resFrac (pv : Nat → Rat) (j l : Nat) : Rat :=
 def balanceOne (pv : Nat → Rat) (fl : Flow) (j : Nat) : Option Flow :=
   match net.kind j with
   | .junction =>
-      if pTot net pv j = 0 then none
+      if pTot net pv j = 0 then
+        -- nothing flows in ⇒ nothing flows out, whatever the proportions (the code's guard against 0·0/0); otherwise NaN
+        (if inflowZero net fl j then some (fun l r => if net.src l = j then 0 else fl l r) else none)
       else some (fun l r => if net.src l = j then jInflow net fl j r * pOf net pv l / pTot net pv j else fl l r)
   | .resjunction =>
       some (fun l r =>
@@ -300,6 +310,12 @@ def runFrom (dt : Rat) : List (Nat → Rat) → Stock → Option (List (Stock ×
 /-- start-up sequence of `Model.process`: parameters (`pvPre`), initial junction flush, parameters again (`pvs.head`), links -/
 def process (dt : Rat) (pvPre : Nat → Rat) (pvs : List (Nat → Rat)) (xinit : Stock) : Option (List (Stock × Flow)) :=
   (flushAll net pvPre xinit net.jorder).bind (fun x0 => runFrom net dt pvs x0)
+
+/-- every residual junction has exactly one parameter-less (residual) out-link: `framework.transitions['>']` holds one pair
+    per residual junction.  (With two residual links each would receive the whole remainder.) -/
+def resCheck : Bool :=
+  allBelow net.nC (fun c => net.kind c != .resjunction ||
+    ((List.range net.nL).filter (fun l => net.src l == c && net.par l == none)).length == 1)
 
 /-- links incident to one duration-group junction draw from / deliver to the same number of rows
     (the junction balances row by row, so a mismatch would drop or misplace people) -/
